@@ -310,6 +310,7 @@ def symbolic_run(scenario, cfg, tier, *, max_paths=400, obl_timeout_ms=None, val
     out["assumptions"] = list(dict.fromkeys(c.assumption_notes))
     out["notes"].extend(c.notes)
     out["budget_hit"] = bool(getattr(c, "budget_hit", False))
+    out["deadline_hit"] = bool(getattr(c, "deadline_hit", False))
     out["wall"] = time.time() - t_start
     return out
 
